@@ -61,7 +61,7 @@ def _has_quant(t):
 class Engine(NumpyTheory, Evaluator):
     BUILTINS = {'len', 'min', 'max', 'abs', 'int', 'range', 'list', 'tuple', 'isinstance', 'slice', 'all', 'any',
                 'implies', 'old', 'enumerate', 'zip', 'ceil', 'floor', 'float', 'bool', 'str', 'dict', 'getattr',
-                'round', 'iff', 'sorted', 'ite', 'map', 'super', 'fresh_obj', 'same_fields_except', 'is_fresh', 'psum', 'ops_fold', 'op_row', 'nblocks', 'flat', 'elems', 'is_list', 'is_none', 'smul', 'smul_def'}
+                'round', 'iff', 'sorted', 'ite', 'map', 'super', 'fresh_obj', 'same_fields_except', 'is_fresh', 'psum', 'ops_fold', 'op_row', 'nblocks', 'flat', 'elems', 'is_list', 'is_none', 'smul', 'smul_def', 'sq'}
 
     def __init__(self, spec_module_path=None):
         self.obs = []
@@ -609,6 +609,14 @@ class Engine(NumpyTheory, Evaluator):
                 t._ax_key = key
                 st.pc.append(t)
             return VElem(F(A, B, n, row))
+        if name == 'sq':
+            SQ = z3.Function('sq', z3.RealSort(), z3.RealSort())
+            if not any(getattr(t_, '_ax_key', None) == 'sq' for t_ in st.pc):
+                tq = z3.Real(fresh_name('t'))
+                ax = z3.ForAll([tq], z3.And(SQ(tq) >= 0, (SQ(tq) == 0) == (tq == 0)))
+                ax._ax_key = 'sq'
+                st.pc.append(ax)
+            return VReal(SQ(as_real(args[0])))
         if name == 'smul_def':
             # explicit instance of the DEFINITION smul(q, s) == q * s at ground terms chosen by the contract
             q, sv = as_int(args[0]), as_int(args[1])
@@ -752,6 +760,7 @@ class Engine(NumpyTheory, Evaluator):
         for k, v in kw.items():
             sub.env[k] = v
         sub.heap = st.heap      # share: spec functions only read
+        sub.status, sub.retval, sub.exc = 'run', None, None
         sub.specfork = 1
         sub.nofork = 0
         nd = len(sub.decisions)
@@ -909,6 +918,9 @@ class Engine(NumpyTheory, Evaluator):
                 st.assume(self.eq(self.spec_eval(tgt, st), self.spec_eval(e, st), st))
             for lab, e in c.ensures:
                 st.assume(self.spec_truth(e, st))
+            for lab, e in c.defines:
+                self.assumed_used.add('A-DEF %s: %s' % (c.key, lab))
+                st.assume(self.spec_truth(e, st))
             return res
         finally:
             st.env, st.ghost, st.old = saved_env, saved_ghost, old
@@ -953,7 +965,25 @@ class Engine(NumpyTheory, Evaluator):
                 else:
                     nxt.extend(self.exec_stmt(stmt, s))
             states = nxt
+            if self.cur is not None and self.cur.cuts and not any(s_.spec for s_ in states):
+                self.apply_cuts(stmt, states)
         return states
+
+    def apply_cuts(self, stmt, states):
+        try:
+            text = ' '.join(ast.unparse(stmt).split())
+        except Exception:
+            return
+        for pref, lab, e in self.cur.cuts:
+            if not text.startswith(' '.join(pref.split())):
+                continue
+            self._cuts_hit = getattr(self, '_cuts_hit', set()) | {(self.cur.key, lab)}
+            for s in states:
+                if s.status == 'run':
+                    if lab.startswith('let:'):
+                        s.env[lab[4:]] = self.spec_eval(e, s)      # ghost name for a value that the code is about to overwrite
+                    else:
+                        self.oblige(s, 'hint', lab, self.spec_truth(e, s), stmt)
 
     def exec_stmt(self, stmt, st):
         pending = [st]
@@ -1614,6 +1644,9 @@ class Engine(NumpyTheory, Evaluator):
                 info['paths'] += 1
                 self.finish_path(c, f, fn, entry_env)
         info['obligations'] = len(self.obs) - start
+        missing = [lab for pref, lab, e in c.cuts if (c.key, lab) not in getattr(self, '_cuts_hit', set())]
+        if missing:
+            raise front.AttachError('%s: stepping-stone hints %s refer to statements that no longer exist' % (c.key, missing))
         return info
 
     def finish_path(self, c, f, fn, entry_env):
